@@ -39,7 +39,7 @@ def plan(tier, seed):
                covers=["HLG range explored"])]
     for name in RT:
         # public-API tie on a small grid (PQ: 8 fast-powf evaluations per round trip, ~30 s of SAT time per input)
-        use = pts if name != "PQ" else [0.0, 0.0625, 0.25, 0.5, 1.0]
+        use = pts if name != "PQ" else ([0.0, 0.0625, 0.25, 0.5, 1.0] if thorough else [0.5, 1.0])
         for c in range(0, len(use), chunk):
             sub = use[c:c + chunk]
             n, code = CV.rt_harness(name, sub, c // chunk)
@@ -50,8 +50,9 @@ def plan(tier, seed):
     stxt = CV.SCALAR_PRELUDE
     for name in RT:
         # sRGB's round trip composes a division with two powf calls and a fused multiply-add: ~3 s of SAT time per input
-        use = (CV.grid(3 if thorough else 1) if name == "PQ" else (CV.grid(6 if thorough else 3) if name == "SRGB" else spts))
-        ch = 2048 if name != "PQ" else 16
+        # PQ: 8 fast-powf evaluations per round trip, 40-50 s of SAT time per input
+        use = ((CV.grid(3) if thorough else [0.0, 0.015625, 0.125, 0.25, 0.5, 0.75, 1.0]) if name == "PQ" else (CV.grid(6 if thorough else 3) if name == "SRGB" else spts))
+        ch = 2048 if name != "PQ" else 4
         for c in range(0, len(use), ch):
             sub = use[c:c + ch]
             n, code = CV.rt_scalar(name, sub, c // ch)
@@ -65,7 +66,7 @@ def plan(tier, seed):
     p.modules.append(("src/lib.rs", txt))
     p.harnesses = hs
     p.functions = ["all scalar transfer curves in both directions (src/yuv_rgb/transfer.rs)", "yuvxyb_math::powf / exp2 / log2 (real)"]
-    p.bounds = ["oracle-free round trip of the scalar kernels on the reduced-precision grid (<= %d mantissa bits, %d inputs per curve; PQ %d inputs) for the BT.1886 family, BT.470M, BT.470BG, sRGB, xvYCC, PQ, plus a small public-API tie; full domain for Linear, HLG on [0,0.5], sRGB linear segment" % (gs, len(spts), len(CV.grid(3 if thorough else 1)))]
+    p.bounds = ["oracle-free round trip of the scalar kernels on the reduced-precision grid (<= %d mantissa bits, %d inputs per curve; PQ %d inputs: it costs 40-50 s of SAT time per input) for the BT.1886 family, BT.470M, BT.470BG, sRGB, xvYCC, PQ, plus a small public-API tie; full domain for Linear, HLG on [0,0.5], sRGB linear segment" % (gs, len(spts), len(CV.grid(3)) if thorough else 7)]
     p.outside = ["Log100, Log316 and HLG above 0.5: their to_gamma uses log10/ln (over-approximated by Kani: a spurious counterexample would be guaranteed)", "inputs off the grid",
                  "aliases of BT.1886 (bit-identical to it by C03's alias lemma)"]
     p.assumptions = ["non-FMA build"]
